@@ -150,6 +150,43 @@ def run(tier, seed):
                 continue       # ill-formed calls are thinned in quick; well-formed ones are all kept
             src, off = render(c, pos)
             jobs.append((f"C24 {catalogue.call_key(c)} pos={pos}", src, off, c))
+    # Functions of the file-system and shell namespaces that Builtins.tla does not list (the table is a
+    # transcription; the implementation may have grown): each is called with arguments built from its
+    # declared parameter types.  Nothing is known about what such a function should answer, so only the
+    # effects are judged: the directory snapshot, the canary executable, the stdin line.
+    import re
+    from common import REPO
+    known = {(c["ns"], c["n"]) for c in calls}
+    unknown = []
+    by_type = {"Path": VALUE["Path"], "String": VALUE["String"], "List<String>": VALUE["ListString"], "List<Int>": "[104, 105]", "Int": "1", "Bool": "True"}
+    for ns in ("fs", "shell"):
+        try:
+            text = open(os.path.join(REPO, "src", f"__{ns}.gdn")).read()
+        except OSError:
+            continue
+        for m in re.finditer(r"^public fun (\w+)\(([^)]*)\)", text, re.M):
+            if (ns, m.group(1)) in known:
+                continue
+            args = [by_type.get(a.split(":", 1)[1].strip(), "1") for a in m.group(2).split(",") if ":" in a]
+            call = f"{ns}::{m.group(1)}(" + ", ".join(args) + ")"
+            imp = f'import "__{ns}.gdn" as {ns}\n'
+            unknown.append((f"C24 unlisted {ns}::{m.group(1)} pos=toplevel", imp + 'println("before")\nlet r = ' + call + '\nprintln("after")\n', None, None))
+            tsrc = imp + "fun target(): Int {\n  let r = " + call + "\n  1\n}\ntest tt { assert(target() == 1) }\n"
+            unknown.append((f"C24 unlisted {ns}::{m.group(1)} pos=test", tsrc, tsrc.index("target"), None))
+    for (key, src, off, _), r in zip(unknown, pmap(lambda j: one(j[:3]), unknown)):
+        ck.evaluated()
+        ck.validated()
+        ck.nontrivial(key)
+        problem = None
+        if r["fs_changed"]:
+            problem = f"the working directory changed: {r['fs_changed']}"
+        elif r["canary_ran"]:
+            problem = "a process was started (canary executable ran)"
+        elif r["timed_out"]:
+            problem = "the run hung"
+        if problem:
+            ck.fail(key, f"{key}: {problem}; output {r['out'][-200:]!r}",
+                    {"cmd": "garden playground-run p.gdn" if off is None else f"garden sandboxed-test p.gdn {off}", "src": src, "real": r})
     results = pmap(lambda j: one(j[:3]), jobs)
     refused = 0
     for (key, src, off, c), r in zip(jobs, results):
@@ -181,7 +218,8 @@ def run(tier, seed):
                     {"cmd": "garden playground-run p.gdn" if off is None else f"garden sandboxed-test p.gdn {off}", "src": src, "real": r})
     vacuity(refused > len(jobs) // 3, f"only {refused} of {len(jobs)} runs were refused by the sandbox")
     ck.assumptions += ["effect classes are those of Builtins.tla: fs (read/write/list/copy/remove/mkdir/chdir, Path.exists/info), proc (shell::run), stdin (read_line); env/time/random built-ins are outside the property",
-                       "ill-formed calls may be refused with an argument error instead of the sandbox error"]
+                       "ill-formed calls may be refused with an argument error instead of the sandbox error",
+                       "functions of __fs.gdn / __shell.gdn that Builtins.tla does not list are called with arguments built from their declared parameter types and judged by their effects only"]
     return ck.finish(rule="every forbidden-effect call of the Builtins.tla matrix (well-formed, each argument of every other kind, arity +-1) x call position (top level, function, closure passed to map, sandboxed test, namespace alias, unqualified import); "
                           "non-trivial = well-formed calls (the ones that would have an effect); checked: directory snapshot, canary executable, stdin line, outcome class")
 
